@@ -163,7 +163,7 @@ def random_params(kind, rng):
     if kind == "STEPD":
         d = rng.choice([0.001, 0.003, 0.003, 0.01, 0.05])
         if rng.random() < 0.12:      # a drift level at / below machine epsilon: the p-value must be exactly 0 (T beyond ~8.3)
-            return {"window_size": rng.choice([10, 30]), "alpha_drift": rng.choice([1e-17, 1e-15, 1e-12]), "alpha_warning": rng.choice([0.05, 1e-6])}
+            return {"window_size": rng.choice([10, 30]), "alpha_drift": rng.choice([1e-17, 1e-15, 1e-12, 0.0, 0]), "alpha_warning": rng.choice([0.05, 1e-6, 0.0])}      # (a level of 0 switches that alarm off: no p-value is BELOW 0)
         if rng.random() < 0.2:      # significance levels above one half are legal: then every decrease of accuracy alarms, and ONLY a decrease
             return {"window_size": rng.choice([5, 10, 30]), "alpha_drift": rng.choice([0.05, 0.52, 0.6]), "alpha_warning": rng.choice([0.55, 0.65, 0.7])}
         return {"window_size": rng.choice([1, 5, 10, 30, 30]), "alpha_drift": d,
